@@ -222,6 +222,67 @@ theorem handlePing_outs (s : Store) (a : Addr) (data : Bytes) (r : Rec) (h : reg
     | (rcases ho with rfl; simp)
     | cases ho
 
+/-! ## `port.to_bytes(2, "little")` does not overflow for 16-bit ports -/
+
+theorem redirectPacket_ne_overflow (d : Bytes) (port : Nat) (h : port < 65536) :
+    redirectPacket d port ≠ .error .overflowError := by
+  unfold redirectPacket
+  split
+  · intro e; cases e
+  · rw [if_pos h]; intro e; cases e
+
+theorem incByte_ne_overflow (d : Bytes) (i : Nat) : incByte d i ≠ .error .overflowError := by
+  unfold incByte
+  split
+  · intro e; cases e
+  · split <;> (intro e; cases e)
+
+theorem handleRdacRequest_no_overflow (cfg : Cfg) (s : Store) (a : Addr) (data : Bytes) (h : cfg.rdacPort < 65536) :
+    (handleRdacRequest cfg s a data).2.2 ≠ .err .overflowError := by
+  unfold handleRdacRequest
+  split
+  · intro e; cases e
+  · split
+    · rename_i e' he'
+      intro e; cases e
+      exact incByte_ne_overflow _ _ he'
+    · split
+      · intro e; cases e
+      · try dsimp only
+        split
+        · rename_i e' he'
+          intro e; cases e
+          exact redirectPacket_ne_overflow _ _ h he'
+        · intro e; cases e
+
+theorem handleDmrRequest_no_overflow (cfg : Cfg) {s : Store} (hinv : Inv s) (a : Addr) (data : Bytes)
+    (h : a.port < 65536) : (handleDmrRequest cfg s a data).2.2 ≠ .err .overflowError := by
+  unfold handleDmrRequest
+  split
+  · intro e; cases e
+  · rename_i r hr
+    obtain ⟨hrec, _⟩ := registeredRec_some s a r hr
+    obtain ⟨_, _, haddr⟩ := hinv.recOf_some_iff.mp hrec
+    try dsimp only
+    split
+    · rename_i e' he'
+      intro e; cases e
+      exact incByte_ne_overflow _ _ he'
+    · split
+      · intro e; cases e
+      · try dsimp only
+        split
+        · intro e; cases e
+        · rename_i port hport
+          rw [haddr] at hport
+          simp only [Addr.val, portOf, Option.some.injEq] at hport
+          subst hport
+          split
+          · rename_i e' he'
+            intro e; cases e
+            exact redirectPacket_ne_overflow _ _ h he'
+          · intro e; cases e
+
 /-! ## invariant and the registered flag along histories -/
 
 /-- the input is a registration datagram from `a` that completes -/
